@@ -19,7 +19,7 @@ claimed = {
    note="bounds: k <= 2 datagrams quick, <= 4 thorough (longer sequences argued from the loop being memoryless); representative operations GetCards, OpenDoor, GetStatus at the seam with content checks, all 30 reply-bearing operations with the accept/reject half (one datagram, broadcast and directed routes); socket level: GetCards through the real ut0311.SendUDP / SendTCP / BroadcastTo over the socket script (datagrams / TCP chunks of length 0..96, k <= 2, 3 thorough), replayed natively against a loopback peer; directed UDP also with two datagrams (nothing is skipped); a non-decimal date / date-time field in a reply that otherwise passes as the controller's makes the call fail (nine fields of six replies, three routes). " + TRUST,
    ref="DESIGN.md section 6 C03"),
  "C04": dict(
-   text="every runtime panic of the interpreted code (index and slice bounds, nil dereference, nil-map write, failed type assertion, division by zero, explicit panic, reflect misuse) is a solver obligation in the engine; the harnesses drive the 30 reply-bearing operations with an arbitrary reply of symbolic length 0..2048 on four routes (broadcast filter, UDP, TCP nil reply, transport error), then render the result with String() and JSON; plus the codec and dispatcher entry points, discovery and the listener's datagram handler on arbitrary byte strings, arbitrary argument values (passcode lists up to 6), and a shutdown of the real socket-level Listen while one event is still being delivered to a slow callback and a second one waits at the pipe (timer-driven schedule; a send on the closed pipe would be a panic in a library goroutine)",
+   text="every runtime panic of the interpreted code (index and slice bounds, nil dereference, nil-map write, failed type assertion, division by zero, explicit panic, reflect misuse) is a solver obligation in the engine; the harnesses drive the 30 reply-bearing operations with an arbitrary reply of symbolic length 0..2048 on four routes (broadcast filter, UDP, TCP nil reply, transport error), then render the result with String() and JSON; plus the codec and dispatcher entry points, discovery and the listener's datagram handler on arbitrary byte strings, arbitrary argument values (passcode lists up to 6; dates with years beyond 9999 and before 0 as concrete samples), and a shutdown of the real socket-level Listen while one event is still being delivered to a slow callback and a second one waits at the pipe (timer-driven schedule; a send on the closed pipe would be a panic in a library goroutine)",
    note="rendering uses opaque text for numbers (only panics are checked); marshal/String methods of standard-library types (net.IP, netip.AddrPort) are trusted; fmt recovers panics in String methods it calls, so every returned value's String() and those of its exported fields are called directly; years outside 0..9999 are outside the time model. " + TRUST,
    ref="DESIGN.md section 6 C04"),
  "C05": dict(
